@@ -169,7 +169,7 @@ def main(tier, seed):
     cov = aggregate(results)
     cov["rule"] = ("1-4 initiators x feature subsets/policies; complete state graph with every (cyc,stb,lock) per initiator "
                    "x every target response; exact next-owner on every edge + SCC/longest-path liveness analysis")
-    return finish(PID, tier, seed, "model_checking", cov, ASSUMPTIONS, t0, results)
+    return finish(PID, tier, seed, "model_checking", cov, ASSUMPTIONS, t0, results, min_explored=int(0.9 * len(results)))
 
 
 ASSUMPTIONS = [
